@@ -185,7 +185,7 @@ def describe(tier):
             'quick': '1-3 inputs, EVERY element-type vector in {int64,float64}^k, weight vectors all-float / all-int / mixed, 2 cells, all mask placements; every adjacent transposition for commutative commands; shape mismatch at every position (3 odd shapes), weight-count mismatch, empty list',
             'thorough': '1-5 inputs (>=4 inputs: 1 cell, representative type vectors), masked / nomask / plain inputs',
         },
-        'outside': ['IEEE-754 rounding, int64 overflow', 'weights summing to zero are covered only as "result missing"', 'hard masks'],
+        'outside': ['IEEE-754 rounding, int64 overflow', 'unsigned data above 2^20 (only the wrap below zero is modelled), 8/16/32-bit element types', 'weights summing to zero are covered only as "result missing"', 'hard masks'],
         'assumptions': D.STUBS + ["numpy's same-kind casting rule for in-place operators is part of symnp and validated per path against real numpy",
                                   'reference = mpv/oracle.py; result element type: integer only if all inputs (and weights) are integer and the operation is closed on integers'],
     }
